@@ -133,15 +133,16 @@ class extract_visitor(NodeVisitor):
 
     def visit_While(self, node):
         # type: (ast.While) -> None
-        self.visit(node.test)
         cur = self.flow
 
-        body_start = self.make_flow('while', [cur])
-        body = self.visit_in_flow(node.body, body_start)
-        body_start.loop(body)
+        # the test is evaluated before every iteration and once more on exit
+        test = self.make_flow('while-test', [cur])
+        self.visit_in_flow(node.test, test)
+        body = self.visit_in_flow(node.body, self.make_flow('while', [test]))
+        test.loop(body)
 
         orelse = self.visit_in_flow(node.orelse,
-                                    self.make_flow('while-else', [cur, body]))
+                                    self.make_flow('while-else', [test]))
 
         self.flow = self.make_flow('join', [orelse])
         self.flow.scope.flow = self.flow
